@@ -788,6 +788,27 @@ func isNilErrReturn(ret *ssa.Return) bool {
 type flowOpts struct {
 	throughCalls bool // results of calls taking the value as argument/receiver are derived
 	intoFields   bool // storing into x.f taints loads of x.f in the same function (by field name)
+	intoClosures bool // follow arguments and captured variables into function literals
+}
+
+func pushClosureArgs(cc *ssa.CallCommon, v ssa.Value, push func(ssa.Value)) {
+	var fn *ssa.Function
+	switch x := cc.Value.(type) {
+	case *ssa.MakeClosure:
+		fn, _ = x.Fn.(*ssa.Function)
+	case *ssa.Function:
+		if x.Parent() != nil {
+			fn = x
+		}
+	}
+	if fn == nil {
+		return
+	}
+	for i, a := range cc.Args {
+		if a == v && i < len(fn.Params) {
+			push(fn.Params[i])
+		}
+	}
 }
 
 // derived computes the set of values derived from seeds within one function.
@@ -837,8 +858,50 @@ func derived(seeds []ssa.Value, o flowOpts) map[ssa.Value]bool {
 			case *ssa.Call:
 				if o.throughCalls {
 					push(r)
+					// out-parameters: json.Unmarshal(raw, &x) makes x derived
+					for _, a := range r.Call.Args {
+						if al, ok := a.(*ssa.Alloc); ok && a != v {
+							push(al)
+							if ar := al.Referrers(); ar != nil {
+								for _, l := range *ar {
+									if u, ok := l.(*ssa.UnOp); ok && u.Op == token.MUL {
+										push(u)
+									}
+								}
+							}
+						}
+						if mi, ok := a.(*ssa.MakeInterface); ok {
+							if al, ok := mi.X.(*ssa.Alloc); ok && mi.X != v {
+								push(al)
+								if ar := al.Referrers(); ar != nil {
+									for _, l := range *ar {
+										if u, ok := l.(*ssa.UnOp); ok && u.Op == token.MUL {
+											push(u)
+										}
+									}
+								}
+							}
+						}
+					}
 				} else if b, ok := r.Call.Value.(*ssa.Builtin); ok && (b.Name() == "append" || b.Name() == "copy" || b.Name() == "min" || b.Name() == "max") {
 					push(r)
+				}
+				if o.intoClosures {
+					pushClosureArgs(r.Common(), v, push)
+				}
+			case *ssa.Go:
+				if o.intoClosures {
+					pushClosureArgs(r.Common(), v, push)
+				}
+			case *ssa.MakeClosure:
+				if o.intoClosures {
+					if fn, ok := r.Fn.(*ssa.Function); ok {
+						for i, b := range r.Bindings {
+							if b == v && i < len(fn.FreeVars) {
+								push(fn.FreeVars[i])
+							}
+						}
+					}
 				}
 			}
 		}
